@@ -271,12 +271,16 @@ CLAIMED = {
         "DESIGN.md 5 (C18)",
         "Lean 4 theorems about a model of the .proto generator's numbering (Proto/Schema.lean) vs the writer mirror: schema_row, "
         "writer_rows, schema_wire_types_agree, schema_oneof_agree, schema_wire_agree_partial (number and wire type of every written "
-        "field equal the schema row when no NULL precedes the component; the NULL deviation refuted on a witness). The tie is "
-        "translation validation: real bytes + the real generated .proto are decoded by protoc 3.21 (and a built-in Python wire "
-        "decoder) and compared with the value; protoc also validates each .proto file. Five listed known findings (NULL numbering, "
-        "SET order, extensible integer width, two invalid schema printings).",
+        "field equal the schema row when no NULL precedes the component; the NULL deviation refuted on a witness); schema_int_encoding_agree "
+        "(the integer class the codec selects = the schema's scalar type, extensible integers 64-bit after fix 3e8f903); and about a model "
+        "of the package line and file name (Proto/Package.lean, Props/C18Pkg.lean): package_valid — for every module name over "
+        "[A-Za-z0-9_-] the package is a proto3 fullIdent or empty, empty exactly for the name `Module` among X.680 names (after fix "
+        "ae3699b; the exception is a listed finding), oid_package_valid, file_name_shape. The tie for values is translation validation: "
+        "real bytes + the real generated .proto are decoded by protoc 3.21 (and a built-in Python wire decoder) and compared with the "
+        "value; protoc also validates each .proto file of the zoo and of generated modules (stream proto-gen, exploration level). Listed "
+        "known findings: NULL numbering, SET order, three invalid schema printings, the empty package.",
         "Trusted: Lean kernel, standard axioms; protoc as independent decoder (fallback: built-in decoder, recorded in the evidence).",
-        "Lean 4 proof about numbering + translation validation with protoc",
+        "Lean 4 proof about numbering, integer width and package names + translation validation with protoc",
     ),
 }
 
